@@ -307,7 +307,8 @@ def run(ck: Check) -> None:
         "markup. part 2: histories (<=12 operations) of Environment creations over 7 configurations (3 delimiter families, comments "
         "on/off, STRICT/LAX/WARN), add_filter, from_string through any earlier environment and Template() calls, in interleaved "
         "order, each run once in one process and once with a brand-new Environment and emptied memo tables for every parse (fresh "
-        "subprocess). Non-trivial = custom delimiters differ from the default / history with >=2 live environments."
+        "subprocess); part 2b (oracle only): for each of the 7 configurations three environments with the same configuration and the same "
+        "tag names but their own implementation of the increment tag, parsed and rendered through in all 6 orders, twice. Non-trivial = custom delimiters differ from the default / history with >=2 live environments."
     )
     ck.exhaustive = False
     ck.trusted_base = [
@@ -319,6 +320,7 @@ def run(ck: Check) -> None:
     ck.assumptions = [
         "theorem C11_delimiter_equivariance covers the literal fragment under the occurrence guard (no opening delimiter occurs "
         "inside a text, no closing pattern inside its body); control-flow templates are covered by the oracle run only",
+        "tags registered on one environment (add_tag) are not in the model Memo.v: their isolation is decided by the oracle run of part 2b only",
         "an environment's configuration beyond delimiters and template_comments is one opaque value in the model",
     ]
     ck.proof()
@@ -447,6 +449,7 @@ def run(ck: Check) -> None:
         hcases.append(g_ops(ops))
         hexpected.append(g_hobs(ops, together))
         hmeta.append(ops)
+    _tag_isolation(ck, report)
     ck.sample({"history": hmeta[0]})
     mm = ck.coq_mismatches("hist", IMPORTS, "run_hist", "hobs_eqb", "list op", "hobs", hcases, hexpected, chunk=8,
                            preamble=HIST_PREAMBLE)
@@ -457,6 +460,60 @@ def run(ck: Check) -> None:
                      {"type": "history-model", "ops": hmeta[i],
                       "broken": "correspondence Memo.run_ops ~ interleaved Environment/from_string/Template calls (theorem C11_env_independence)"},
                      no_input=True)
+
+
+# ---------------- part 2b: tags of one environment never reach another (oracle only, no model)
+# Seed C11-I gave Environment an __eq__ over its configuration and the NAMES of its tags and filters; get_parser is
+# memoised on the environment, so two equal-looking environments shared one Parser and its tag instances.  The histories
+# above register filters only, which are looked up through the template's own environment.  Here every environment of a
+# group has the same configuration and the same tag names, but its own implementation of `increment`.
+def tag_isolation_case(cfg, order, n=3):
+    """n environments with configuration cfg, each replacing the increment tag by one writing tagenv<i>; parse and
+    render through them in the given order.  Returns the list of (env index, rendered)."""
+    from liquid import Environment, Mode
+    from liquid.builtin.tags.increment_tag import IncrementNode, IncrementTag
+
+    d = cfg["d"]
+    envs = []
+    for i in range(n):
+        e = Environment(tag_start_string=d[0], tag_end_string=d[1], statement_start_string=d[2], statement_end_string=d[3],
+                        template_comments=cfg["comments"], comment_start_string=d[4], comment_end_string=d[5],
+                        tolerance=getattr(Mode, cfg["mode"]))
+        if i > 0:   # environment 0 keeps the built-in tag
+            node = type("WhoNode%d" % i, (IncrementNode,), {
+                "render_to_output": (lambda self, context, buffer, i=i: buffer.write("tagenv%d" % i) or 7)})
+            e.add_tag(type("WhoTag%d" % i, (IncrementTag,), {"node_class": node}))
+        envs.append(e)
+    src = f"{d[0]} increment n {d[1]}|{d[2]} 'x' | upcase {d[3]}"
+    out = []
+    for i in order:
+        try:
+            out.append([i, ["out", envs[i].from_string(src).render()]])
+        except Exception as e:  # noqa: BLE001
+            out.append([i, ["err", type(e).__name__]])
+    return src, out
+
+
+def tag_isolation_problems(out):
+    bad = []
+    for i, r in out:
+        want = ["out", ("0" if i == 0 else "tagenv%d" % i) + "|X"]
+        if r != want:
+            bad.append(f"environment {i} renders {r}, its own increment tag gives {want}")
+    return bad
+
+
+def _tag_isolation(ck, report):
+    import itertools
+    orders = [list(p) + list(p) for p in itertools.permutations(range(3))]
+    for ci, cfg in enumerate(CONFIGS):
+        for order in orders:
+            src, out = tag_isolation_case(cfg, order)
+            ck.note_case(("tag-isolation", ci, tuple(order)))
+            ck.count("tag-isolation.orders")
+            for pb in tag_isolation_problems(out)[:1]:
+                report("c11-tag-isolation", f"configuration {cfg!r}, three environments with the same configuration and tag names, used in order {order}: {pb} ({src!r})",
+                       {"type": "tag-isolation", "config": ci, "order": order})
 
 
 def pieces(tpl):
@@ -508,6 +565,11 @@ def replay(data) -> int:
         bad = a != b or bool(who_consistent(ops, a))
         print("interleaved:", a)
         print("fresh      :", b)
+    elif t == "tag-isolation":
+        src, out = tag_isolation_case(CONFIGS[case["config"]], case["order"])
+        print("source:", repr(src), "order:", case["order"])
+        print("rendered:", out)
+        bad = bool(tag_isolation_problems(out))
     else:
         print("replay names a proof/correspondence obligation:", {k: case[k] for k in case if k != "model"})
         return 1
